@@ -153,7 +153,8 @@ class PF(EKF):
 
         n = x.size(-1)
         xp = self.generate_particles(x, n * P)
-        xs, ye = self.model(xp, u)
+        xs, _ = self.model(xp, u)
+        ye = self.model.observation(xs, u, self.model.systime)
         q = self.relative_likelihood(y, ye, R)
         xr = self.resample_particles(q, xs)
 
